@@ -252,7 +252,12 @@ def derive_case(draw):
         wf, hf = (0.0, 0.0) if wmode == "whole" else (draw(st.sampled_from([0.0, 0.25, 0.5, 0.9])), draw(st.sampled_from([0.1, 0.25, 0.5, 0.9])))
         wins.append([ws + wf, hs + hf if hs + hf <= ws + wf else float(hs)])
     spec = {"rec": rs, "a": a, "off": off, "length": length, "ops": ops, "targets": targets, "wins": wins, "whole_recording": draw(st.integers(0, 3)) == 0,
-            "sample_dtype": draw(st.sampled_from([None, None, "float32"]))}
+            "sample_dtype": draw(st.sampled_from([None, None, "float32"])),
+            # a time slice cut off the loaded array before it is processed (xarray keeps coordinate attributes through isel) and
+            # non-default spectrogram options: the axes still start at the (sliced) source's start
+            "slice": draw(st.sampled_from([0, 0, 1, 7, 50])),
+            "spec_kw": draw(st.sampled_from([{}, {}, {"padded": False}, {"boundary": "even"}, {"padded": False, "boundary": "even"}, {"padded": False, "boundary": "odd", "window_type": "hamming"},
+                                             {"padded": False, "boundary": "constant", "detrend": "constant"}]))}
     if draw(st.integers(0, 5)) == 0:
         # a clip late in a long low-rate recording (times beyond 1000 s) - coordinates must stay double precision
         spec["rec"] = {"rate": draw(st.sampled_from([93, 99])), "channels": 1, "frames": 150000, "te": 1.0}
@@ -280,6 +285,12 @@ def check_derive(spec, ctx):
     if spec.get("sample_dtype"):
         src = src.astype(spec["sample_dtype"])  # single-precision samples; the time axis is unaffected by the sample dtype
         what += ".astype(float32)"
+    if spec.get("slice") and src.sizes["time"] > spec["slice"] + 16:
+        src = src.isel(time=slice(spec["slice"], None))
+        what += f".isel(time=slice({spec['slice']}, None))"
+    skw = dict(spec.get("spec_kw") or {})
+    if not set(skw) <= {"padded", "boundary", "window_type", "detrend"} or skw.get("boundary", "zeros") not in ("zeros", "even", "odd", "constant"):
+        raise ValueError("malformed spec")
     produced = [(what, src, float(src.coords["time"].values[0]) if src.sizes["time"] else None)]
     frac = False
     cur = src
@@ -310,7 +321,7 @@ def check_derive(spec, ctx):
             if cur.sizes["time"] / max(1.0, math.floor(h)) * (math.ceil(w) / 2 + 1) * nch > MAX_ELEMENTS:
                 ctx.label("too_large_skipped")
                 continue
-            out = ctx.call(spec, f"compute_spectrogram(window={w} samples, hop={h} samples @ {cur_rate} Hz)", audio.compute_spectrogram, cur, window_size=ws, hop_size=hs)
+            out = ctx.call(spec, f"compute_spectrogram(window={w} samples, hop={h} samples @ {cur_rate} Hz)", audio.compute_spectrogram, cur, window_size=ws, hop_size=hs, **skw)
             produced.append((f"compute_spectrogram(window={w}, hop={h} samples)", out, first))
             check_axis(ctx, spec, out, "frequency", "compute_spectrogram", first_expected=0.0)
             f = np.asarray(out.coords["frequency"].values)
